@@ -12,7 +12,7 @@ from .common import state_jobs, decode_state
 
 INFO = {
     "bounds": {
-        "quick": "templates T01-T12, T15 and 27 edge trees (one per dependency-edge kind): every user state inside the domain (bools 3-state incl. hidden and promptless options; ints symbolic 0..200 plus malformed / negative / out-of-range candidates; hex / float / string candidates; choice picks), sampled partitions for the larger trees: value and visibility of every option equal the executable specification (vk/trees/spec.py); second harness: for each option, if its prompt is hidden, replacing its user value by any other leaves every value and every output text unchanged",
+        "quick": "templates T01-T12, T15, 28 edge trees and 4 seeded random trees (thorough: 24) (one per dependency-edge kind): every user state inside the domain (bools 3-state incl. hidden and promptless options; ints symbolic 0..200 plus malformed / negative / out-of-range candidates; hex / float / string candidates; choice picks), sampled partitions for the larger trees: value and visibility of every option equal the executable specification (vk/trees/spec.py); second harness: for each option, if its prompt is hidden, replacing its user value by any other leaves every value and every output text unchanged",
         "thorough": "complete partitions, ints to 10^5, random trees",
     },
     "outside": ["trees outside the corpus", "symbol-valued `set` on int/hex/float targets (rejected as 'not a valid number' by the implementation; not in the documented language)", "tristate m"],
@@ -93,11 +93,13 @@ def jobs(tier, seed, excluded=()):
         dom = Dom(int_max=200, int_cands=["-3", "007", "abc", "1000000"], str_mode="cand", str_cands=["", "p", "fast", "slow", "a"], hex_cands=["0x1f", "1f", "zz", "0xfffff", "0x5"], float_cands=["5", "0.25", "1e3", "nan", "9.6"])
         out = state_jobs("C01", "vk.props.c01", "values", etrees, dom, 700, 1, 150, rng)
         out += state_jobs("C01", "vk.props.c01", "values", temps, dom, 350, 2, 150, rng)
+        out += state_jobs("C01", "vk.props.c01", "values", ["R%d" % (1000 * seed + j) for j in range(4)], dom, 350, 1, 150, rng)
         hb, hn = 60, 3
     else:
         dom = Dom(int_max=100000, str_mode="cand", str_cands=["", "p", "fast", "slow", "a", 'q"'])
         out = state_jobs("C01", "vk.props.c01", "values", etrees, dom, 3000, 2, 600, rng)
         out += state_jobs("C01", "vk.props.c01", "values", temps, dom, 2500, 6, 600, rng)
+        out += state_jobs("C01", "vk.props.c01", "values", ["R%d" % (1000 * seed + j) for j in range(24)], dom, 2500, 2, 600, rng)
         hb, hn = 300, 8
     for tid in temps:
         slots = ST.layout(tid)
